@@ -98,6 +98,8 @@ func (m *FloodSub) Execute(ctx context.Context) error {
 	pubbedChannels := make(map[string]struct{})
 	for {
 		var initSet []*SubscriptionOpts
+		// channels announced in initSet during this pass
+		var initChannels map[string]struct{}
 		simhook.Yield("floodsub/execute", "")
 		m.mtx.Lock()
 		for i := range m.incSessions {
@@ -118,6 +120,10 @@ func (m *FloodSub) Execute(ctx context.Context) error {
 						ChannelId: chid,
 						Subscribe: true,
 					})
+					if initChannels == nil {
+						initChannels = make(map[string]struct{})
+					}
+					initChannels[chid] = struct{}{}
 				}
 			}
 			s.packetCh <- &Packet{Subscriptions: initSet}
@@ -150,7 +156,10 @@ func (m *FloodSub) Execute(ctx context.Context) error {
 		// sweep empty channels
 		for chid, chm := range m.channels {
 			if len(chm) == 0 {
-				if _, ok := pubbedChannels[chid]; ok {
+				// a channel released during the hold-break above may have been
+				// announced to a new session without being marked yet
+				_, inInit := initChannels[chid]
+				if _, ok := pubbedChannels[chid]; ok || inInit {
 					// cleanup no-ref subscription
 					// inform peers we no longer need the channel
 					subChanges = append(subChanges, &SubscriptionOpts{
